@@ -39,7 +39,7 @@ def spell(ch):
 
 
 cell = st.lists(st.sampled_from(['W', 'W', 'Q']), min_size=1, max_size=3).map(' '.join)
-CFG = gdoc.Cfg(words=st.sampled_from(['W', 'W', 'W', 'Q']), inlines=['t', 'em', 'st', 'code', 'link', 'img', 'fnref', 'imath'],
+CFG = gdoc.Cfg(words=st.sampled_from(['W', 'W', 'W', 'Q']), inlines=['t', 'em', 'st', 'code', 'link', 'img', 'fnref', 'imath'], heading_inlines=['t', 'em', 'st', 'code', 'link'],
                blocks=['para', 'atx', 'setext', 'hr', 'fence', 'icode', 'quote', 'list', 'table', 'figure', 'deflist'],
                code=st.just('V'), codelines=st.just('V'), urls=st.sampled_from(['http://e.x/U', 'U.html', 'http://e.x/?a=U&b=U']),
                titles=st.sampled_from([None, None, 'T', 'T Q']), images=st.sampled_from(['img/U.png', 'U.jpg']), langs=st.sampled_from([None, 'python']),
@@ -47,7 +47,7 @@ CFG = gdoc.Cfg(words=st.sampled_from(['W', 'W', 'W', 'Q']), inlines=['t', 'em', 
                              unique_by=lambda t: t[0]).map(lambda m: [list(x) for x in m] or None))
 
 
-CFG_COMPAT = gdoc.Cfg(words=st.sampled_from(['W', 'W', 'W', 'Q']), inlines=['t', 'em', 'st', 'code', 'link', 'img'],
+CFG_COMPAT = gdoc.Cfg(words=st.sampled_from(['W', 'W', 'W', 'Q']), inlines=['t', 'em', 'st', 'code', 'link', 'img'], heading_inlines=['t', 'em', 'st', 'code', 'link'],
                       blocks=['para', 'atx', 'setext', 'hr', 'icode', 'quote', 'list'], code=st.just('V'), codelines=st.just('V'),
                       urls=st.sampled_from(['http://e.x/U', 'U.html', 'http://e.x/?a=U&b=U']), titles=st.sampled_from([None, None, 'T', 'T Q']),
                       images=st.sampled_from(['img/U.png', 'U.jpg']))
